@@ -23,6 +23,7 @@ structure G where
   fsm : Fsm
   up : Bool
   dead : List Nat
+  closed : List Nat := []
 deriving Repr
 
 def isData : Kind → Bool
@@ -40,7 +41,7 @@ def chk (strict : Bool) (g : G) : Out → Option G
   | .up => if g.up then none else some { g with up := true }
   | .down => some { g with up := false }
   | .gotNotification c => some { g with dead := c :: g.dead }
-  | .close _ => some g
+  | .close c => some { g with closed := c :: g.closed }
   | .reject _ => some g
 
 def chkAll (strict : Bool) (g : G) : List Out → Option G
@@ -64,6 +65,7 @@ structure Rel (full : Bool) (s : State) (g : G) : Prop where
   ids : ∀ i ∈ g.dead, i < s.nextId
   cid : ∀ k, s.conn = some k → k.id < s.nextId
   live : full = true → ∀ k, s.conn = some k → k.id ∉ g.dead
+  accounted : ∀ i, 0 < i → i < s.nextId → (∃ k, s.conn = some k ∧ k.id = i) ∨ i ∈ g.closed
 
 /-- the outputs of `r` pass the checker from `g`, and `Q` holds of where they lead. -/
 def Acc (strict : Bool) (g : G) (r : R) (Q : State → G → Prop) : Prop :=
@@ -84,7 +86,7 @@ theorem Acc.pure {strict : Bool} {g : G} {s : State} {Q : State → G → Prop} 
     Acc strict g (s, []) Q := ⟨g, rfl, h⟩
 
 theorem Rel.weaken {full : Bool} {s : State} {g : G} (h : Rel full s g) : Rel false s g :=
-  ⟨h.fsm, h.up, h.ids, h.cid, by simp⟩
+  ⟨h.fsm, h.up, h.ids, h.cid, by simp, h.accounted⟩
 
 /-- a change of the model state which touches none of `fsm`, `isUp`, `nextId`, `conn`. -/
 theorem Rel.frame {full : Bool} {s t : State} {g : G} (h : Rel full s g) (h1 : t.fsm = s.fsm) (h2 : t.isUp = s.isUp)
@@ -94,13 +96,23 @@ theorem Rel.frame {full : Bool} {s t : State} {g : G} (h : Rel full s g) (h1 : t
     cases hs : s.conn with
     | none => simp [hs, hk] at h4
     | some k' => exact ⟨k', rfl, by simpa [hs, hk] using h4⟩
-  refine ⟨by rw [h.fsm, h1], by rw [h.up, h2], by rw [h3]; exact h.ids, ?_, ?_⟩
+  refine ⟨by rw [h.fsm, h1], by rw [h.up, h2], by rw [h3]; exact h.ids, ?_, ?_, ?_⟩
   · intro k hk
     obtain ⟨k', hs, e⟩ := key k hk
     rw [e, h3]; exact h.cid k' hs
   · intro hf k hk
     obtain ⟨k', hs, e⟩ := key k hk
     rw [e]; exact h.live hf k' hs
+  · intro i h0 hi
+    rw [h3] at hi
+    rcases h.accounted i h0 hi with ⟨k', hs, e⟩ | hcl
+    · left
+      cases ht : t.conn with
+      | none => simp [hs, ht] at h4
+      | some k =>
+        have hid : k.id = k'.id := by simpa [hs, ht] using h4
+        exact ⟨k, rfl, by rw [hid, e]⟩
+    · exact Or.inr hcl
 
 theorem to_idle_rfc (a : Fsm) : (a, Fsm.idle) ∈ rfcTable := by cases a <;> decide
 
@@ -108,7 +120,7 @@ theorem to_idle_rfc (a : Fsm) : (a, Fsm.idle) ∈ rfcTable := by cases a <;> dec
 
 theorem fsmTo_acc {strict full : Bool} {s : State} {g : G} (t : Fsm) (h : Rel full s g) (ht : (s.fsm, t) ∈ rfcTable) :
     Acc strict g (fsmTo t s) (fun s' g' => Rel full s' g' ∧ s' = { s with fsm := t }) := by
-  refine ⟨{ g with fsm := t }, ?_, ⟨rfl, h.up, h.ids, h.cid, h.live⟩, rfl⟩
+  refine ⟨{ g with fsm := t }, ?_, ⟨rfl, h.up, h.ids, h.cid, h.live, h.accounted⟩, rfl⟩
   simp [fsmTo, chkAll, chk, h.fsm, ht]
 
 theorem apiDown_acc {strict full : Bool} {s : State} {g : G} (h : Rel full s g) :
@@ -116,14 +128,19 @@ theorem apiDown_acc {strict full : Bool} {s : State} {g : G} (h : Rel full s g) 
   unfold apiDown
   split
   · exact ⟨g, rfl, h, rfl, rfl, rfl⟩
-  · exact ⟨{ g with up := false }, by simp [chkAll, chk], ⟨h.fsm, rfl, h.ids, h.cid, h.live⟩, rfl, rfl, rfl⟩
+  · exact ⟨{ g with up := false }, by simp [chkAll, chk], ⟨h.fsm, rfl, h.ids, h.cid, h.live, h.accounted⟩, rfl, rfl, rfl⟩
 
 theorem closeConn_acc {strict full : Bool} {s : State} {g : G} (h : Rel full s g) :
     Acc strict g (closeConn s) (fun s' g' => Rel true s' g' ∧ s'.conn = none ∧ s'.fsm = s.fsm) := by
   unfold closeConn
   cases hc : s.conn with
-  | none => exact ⟨g, rfl, ⟨h.fsm, h.up, h.ids, by simp [hc], by simp [hc]⟩, hc, rfl⟩
-  | some k => exact ⟨g, by simp [chkAll, chk], ⟨h.fsm, h.up, h.ids, by simp, by simp⟩, rfl, rfl⟩
+  | none => exact ⟨g, rfl, ⟨h.fsm, h.up, h.ids, by simp [hc], by simp [hc], h.accounted⟩, hc, rfl⟩
+  | some k =>
+    refine ⟨{ g with closed := k.id :: g.closed }, by simp [chkAll, chk], ⟨h.fsm, h.up, h.ids, by simp, by simp, ?_⟩, rfl, rfl⟩
+    intro i h0 hi
+    rcases h.accounted i h0 hi with ⟨k', hs, e⟩ | hcl
+    · rw [hc] at hs; cases hs; exact Or.inr (by simp [e])
+    · exact Or.inr (by simp [hcl])
 
 theorem closeP_acc {strict full : Bool} {s : State} {g : G} (h : Rel full s g) :
     Acc strict g (closeP s) (fun s' g' => Rel true s' g' ∧ s'.conn = none ∧ s'.fsm = .idle) := by
@@ -182,7 +199,7 @@ theorem onNotification_acc {strict : Bool} {s : State} {g : G} (h : Rel true s g
   cases hc : s.conn with
   | none => exact ⟨g, rfl, h.weaken⟩
   | some k =>
-    refine ⟨{ g with dead := k.id :: g.dead }, by simp [chkAll, chk], h.fsm, h.up, ?_, h.cid, by simp⟩
+    refine ⟨{ g with dead := k.id :: g.dead }, by simp [chkAll, chk], h.fsm, h.up, ?_, h.cid, by simp, h.accounted⟩
     intro i hi
     rcases List.mem_cons.1 hi with rfl | hi
     · exact h.cid k hc
@@ -224,6 +241,7 @@ theorem afterSend_up (k : Kind) (c : Nat) (g : G) : (afterSend k c g).up = g.up 
 theorem afterSend_dead (k : Kind) (c : Nat) (g : G) : ∀ i ∈ (afterSend k c g).dead, i = c ∨ i ∈ g.dead := by
   intro i hi
   cases k <;> simp [afterSend] at hi <;> first | exact Or.inr hi | (rcases hi with rfl | hi; exact Or.inl rfl; exact Or.inr hi)
+theorem afterSend_closed (k : Kind) (c : Nat) (g : G) : (afterSend k c g).closed = g.closed := by cases k <;> rfl
 theorem afterSend_plain {k : Kind} (hk : notNotif k = true) (c : Nat) (g : G) : afterSend k c g = g := by
   cases k <;> simp [notNotif] at hk <;> rfl
 
@@ -235,7 +253,7 @@ theorem sendOn_acc {strict : Bool} {s : State} {g : G} (k : Kind) (h : Rel true 
   cases hc : s.conn with
   | none =>
     rw [sendOn_none hc]
-    exact ⟨g, rfl, ⟨h.fsm, h.up, h.ids, by simp [hc], by simp [hc]⟩, rfl, rfl, rfl, rfl, fun _ => by simp [hc], fun _ => hc⟩
+    exact ⟨g, rfl, ⟨h.fsm, h.up, h.ids, by simp [hc], by simp [hc], h.accounted⟩, rfl, rfl, rfl, rfl, fun _ => by simp [hc], fun _ => hc⟩
   | some c =>
     have hlive : c.id ∉ g.dead := h.live rfl c hc
     have hcid := h.cid c hc
@@ -246,19 +264,32 @@ theorem sendOn_acc {strict : Bool} {s : State} {g : G} (k : Kind) (h : Rel true 
       · exact h.ids i hi
     cases hr : c.rst
     · rw [sendOn_ok hc hr]
-      refine ⟨afterSend k c.id g, ?_, ⟨?_, ?_, hids, ?_, ?_⟩, rfl, rfl, rfl, rfl, by simp [hc, markSent_id], by simp⟩
+      refine ⟨afterSend k c.id g, ?_, ⟨?_, ?_, hids, ?_, ?_, ?_⟩, rfl, rfl, rfl, rfl, by simp [hc, markSent_id], by simp⟩
       · simp [chkAll, chk_send h.fsm.symm hlive hd]
       · rw [afterSend_fsm]; exact h.fsm
       · rw [afterSend_up]; exact h.up
       · intro k' hk'; simp at hk'; subst hk'; rw [markSent_id]; exact hcid
       · intro hk k' hk'; simp at hk'; subst hk'; rw [markSent_id, afterSend_plain hk]; exact hlive
+      · intro i h0 hi
+        rw [afterSend_closed]
+        rcases h.accounted i h0 hi with ⟨k', hs, e⟩ | hcl
+        · rw [hc] at hs; cases hs; exact Or.inl ⟨markSent k c, rfl, by rw [markSent_id, e]⟩
+        · exact Or.inr hcl
     · rw [sendOn_fail hc hr]
-      refine ⟨afterSend k c.id g, ?_, ⟨?_, ?_, hids, by simp, by simp⟩, rfl, rfl, rfl, rfl, by simp, by simp⟩
-      · show chkAll strict g [Out.send c.id k s.fsm, Out.close c.id] = some (afterSend k c.id g)
+      refine ⟨{ afterSend k c.id g with closed := c.id :: (afterSend k c.id g).closed }, ?_, ⟨?_, ?_, hids, by simp, by simp, ?_⟩, rfl, rfl, rfl, rfl, by simp, by simp⟩
+      · show chkAll strict g [Out.send c.id k s.fsm, Out.close c.id] = _
         simp only [chkAll, chk_send h.fsm.symm hlive hd, Option.bind_some]
         rfl
-      · rw [afterSend_fsm]; exact h.fsm
-      · rw [afterSend_up]; exact h.up
+      · show (afterSend k c.id g).fsm = s.fsm
+        rw [afterSend_fsm]; exact h.fsm
+      · show (afterSend k c.id g).up = s.isUp
+        rw [afterSend_up]; exact h.up
+      · intro i h0 hi
+        show _ ∨ i ∈ c.id :: (afterSend k c.id g).closed
+        rw [afterSend_closed]
+        rcases h.accounted i h0 hi with ⟨k', hs, e⟩ | hcl
+        · rw [hc] at hs; cases hs; exact Or.inr (by simp [e])
+        · exact Or.inr (by simp [hcl])
 
 theorem Rel.full_of_plain {k : Kind} {s : State} {g : G} (hk : notNotif k = true) (h : Rel (notNotif k) s g) :
     Rel true s g := by rw [hk] at h; exact h
@@ -312,7 +343,7 @@ theorem enterMain_acc {strict : Bool} {s : State} {g : G} (c : Nat) (h : Rel tru
   unfold enterMain
   split
   · exact onNotify_acc 6 3 h
-  · refine ⟨{ g with up := true }, ?_, h.fsm, rfl, h.ids, h.cid, h.live⟩
+  · refine ⟨{ g with up := true }, ?_, h.fsm, rfl, h.ids, h.cid, h.live, h.accounted⟩
     have : g.up = false := by rw [h.up, hu]
     simp [chkAll, chk, this]
 
@@ -546,10 +577,16 @@ theorem staleAdopted_intro {s : State} {c : Nat} {k : Conn} (hp : s.pc = .mainLo
 
 theorem Rel.adopt {s : State} {g : G} (h : Rel true s g) (hc : s.conn = none) :
     Rel true { s with conn := some { id := s.nextId }, nextId := s.nextId + 1 } g := by
-  refine ⟨h.fsm, h.up, fun i hi => Nat.lt_succ_of_lt (h.ids i hi), ?_, ?_⟩
+  refine ⟨h.fsm, h.up, fun i hi => Nat.lt_succ_of_lt (h.ids i hi), ?_, ?_, ?_⟩
   · intro k hk; simp at hk; subst hk; simp
   · intro _ k hk; simp at hk; subst hk
     intro hd; exact Nat.lt_irrefl _ (h.ids _ hd)
+  · intro i h0 hi
+    by_cases hlt : i < s.nextId
+    · rcases h.accounted i h0 hlt with ⟨k', hs, _⟩ | hcl
+      · rw [hc] at hs; cases hs
+      · exact Or.inr hcl
+    · exact Or.inl ⟨{ id := s.nextId }, rfl, by simp at hi ⊢; omega⟩
 
 theorem passiveCont_acc {strict : Bool} {t : State} {g : G} (h : Rel true t g) :
     Acc strict g (if t.pc = .passiveWait then establish2 t else (t, [])) (fun s' g' => Rel true s' g') := by
@@ -575,9 +612,84 @@ theorem handleConnection_acc {strict : Bool} {s : State} {g : G} (h : Rel true s
     Acc strict g (handleConnection s) (fun s' g' => Rel true s' g') := by
   unfold handleConnection
   split
-  · refine ⟨g, by simp [chkAll, chk], h.fsm, h.up, fun i hi => Nat.lt_succ_of_lt (h.ids i hi), ?_, h.live⟩
-    intro k hk; exact Nat.lt_succ_of_lt (h.cid k hk)
+  · refine ⟨{ g with closed := s.nextId :: g.closed }, by simp [chkAll, chk], h.fsm, h.up,
+      fun i hi => Nat.lt_succ_of_lt (h.ids i hi), ?_, h.live, ?_⟩
+    · intro k hk; exact Nat.lt_succ_of_lt (h.cid k hk)
+    · intro i h0 hi
+      by_cases hlt : i < s.nextId
+      · rcases h.accounted i h0 hlt with hcur | hcl
+        · exact Or.inl hcur
+        · exact Or.inr (by simp [hcl])
+      · exact Or.inr (by simp at hi ⊢; omega)
   · exact adopt_acc h
+
+/-- an iteration on the connection in use either ends the session or leaves the loop where it was. -/
+theorem mainIter_keeps (m : Option Msg) (s : State) (hf : s.fsm = .established) :
+    ((mainIter m s).1.pc = .backoff ∨ (mainIter m s).1.pc = .done) ∨
+    ((mainIter m s).1.pc = s.pc ∧ (mainIter m s).1.conn = s.conn) := by
+  have hup : ∀ t : State, t.fsm = .established → (t.isUp = true → t.fsm = .established) := fun t h _ => h
+  have tail : ((mainTail (mainPre m s)).1.pc = .backoff ∨ (mainTail (mainPre m s)).1.pc = .done) ∨
+      ((mainTail (mainPre m s)).1.pc = s.pc ∧ (mainTail (mainPre m s)).1.conn = s.conn) := by
+    obtain ⟨hsame, hok, hfail⟩ := mainSends_spec (mainPre m s)
+    unfold mainTail
+    cases hw : (mainSends (mainPre m s)).2
+    · simp only [Bool.false_eq_true, if_false, andThen_fst]
+      exact Or.inl (onNetErr_ended _ (hup _ (by rw [hsame.fsm]; exact hf))).pc
+    · simp only [if_true, andThen_fst]
+      unfold mainExit
+      cases htd : (mainSends (mainPre m s)).1.1.teardown with
+      | none => exact Or.inr ⟨hsame.pc, hok hw⟩
+      | some code =>
+        simp only []
+        split
+        · rw [andThen_fst]
+          exact Or.inl (onNetErr_ended _ (by rw [closeP_fst]; simp [quietFsm, hsame.fsm, show (mainPre m s).fsm = s.fsm from rfl, hf])).pc
+        · exact Or.inl (onNotify_ended _ _ _ (hup _ (by rw [hsame.fsm]; exact hf))).pc
+  unfold mainIter
+  split
+  · exact Or.inl (onNotify_ended _ _ _ (hup s hf)).pc
+  · exact Or.inl (onNotification_ended _ (hup s hf)).pc
+  · split
+    · exact Or.inl (onNotify_ended _ _ _ (hup s hf)).pc
+    · exact tail
+
+theorem mainIter_not_stale (m : Option Msg) (s : State) (c : Nat) (k : Conn) (hf : s.fsm = .established)
+    (hp : s.pc = .mainLoop c) (hc : s.conn = some k) (hk : k.id = c) : ¬StaleAdopted (mainIter m s).1 := by
+  rcases mainIter_keeps m s hf with h | ⟨h1, h2⟩
+  · rcases h with h | h <;> simp [StaleAdopted, staleAdopted, h]
+  · simp [StaleAdopted, staleAdopted, h1, h2, hp, hc, hk]
+
+theorem drainMain_acc {strict : Bool} : ∀ (n : Nat) (s : State) (g : G), Rel true s g → Inv s →
+    (strict = true → ¬StaleAdopted s) → Acc strict g (drainMain n s) (fun s' g' => Rel true s' g')
+  | 0, s, g, h, _, _ => Acc.pure h
+  | n + 1, s, g, h, hinv, hns => by
+    unfold drainMain
+    cases hp : s.pc with
+    | mainLoop c =>
+      simp only []
+      cases hc : s.conn with
+      | none => exact Acc.pure h
+      | some k =>
+        simp only []
+        by_cases hk : k.id = c
+        · rw [if_pos hk]
+          have hf := (hinv.main c k hp hc hk).1
+          refine Acc.seq (mainIter_acc none h (fun _ => hf)) ?_
+          intro g1 r1
+          exact drainMain_acc n _ g1 r1 (mainIter_inv _ s hinv hf) (fun _ => mainIter_not_stale none s c k hf hp hc hk)
+        · rw [if_neg hk]
+          cases strict with
+          | true => exact (hns rfl (staleAdopted_intro hp hc hk)).elim
+          | false =>
+            refine Acc.seq (staleIter_acc h) ?_
+            intro g1 r1
+            exact drainMain_acc n _ g1 r1 (staleIter_inv s hinv (by rw [hp]; simp)) (by simp)
+    | backoff => exact Acc.pure h
+    | done => exact Acc.pure h
+    | passiveWait => exact Acc.pure h
+    | connecting => exact Acc.pure h
+    | awaitOpen c => exact Acc.pure h
+    | awaitKa c => exact Acc.pure h
 
 theorem react_acc {strict : Bool} {s : State} {g : G} (e : Event) (h : Rel true s g) (hinv : Inv s)
     (hns : strict = true → ¬StaleAdopted s) :
@@ -605,15 +717,28 @@ theorem react_acc {strict : Bool} {s : State} {g : G} (e : Event) (h : Rel true 
       refine Acc.seq (P := fun s' g' => Rel true s' g' ∧ s'.fsm = .idle) ?_ (fun g1 p1 => afterConnect_acc p1.1 p1.2)
       cases hc : s.conn with
       | none =>
-        refine ⟨g, rfl, ⟨h.fsm, h.up, fun i hi => Nat.lt_succ_of_lt (h.ids i hi), ?_, ?_⟩, hf⟩
+        refine ⟨g, rfl, ⟨h.fsm, h.up, fun i hi => Nat.lt_succ_of_lt (h.ids i hi), ?_, ?_, ?_⟩, hf⟩
         · intro k hk; simp at hk; subst hk; simp
         · intro _ k hk; simp at hk; subst hk
           intro hd; exact Nat.lt_irrefl _ (h.ids _ hd)
+        · intro i h0 hi
+          by_cases hlt : i < s.nextId
+          · rcases h.accounted i h0 hlt with ⟨k', hs, _⟩ | hcl
+            · rw [hc] at hs; cases hs
+            · exact Or.inr hcl
+          · exact Or.inl ⟨{ id := s.nextId }, rfl, by simp at hi ⊢; omega⟩
       | some old =>
-        refine ⟨g, by simp [chkAll, chk], ⟨h.fsm, h.up, fun i hi => Nat.lt_succ_of_lt (h.ids i hi), ?_, ?_⟩, hf⟩
+        refine ⟨{ g with closed := old.id :: g.closed }, by simp [chkAll, chk],
+          ⟨h.fsm, h.up, fun i hi => Nat.lt_succ_of_lt (h.ids i hi), ?_, ?_, ?_⟩, hf⟩
         · intro k hk; simp at hk; subst hk; simp
         · intro _ k hk; simp at hk; subst hk
           intro hd; exact Nat.lt_irrefl _ (h.ids _ hd)
+        · intro i h0 hi
+          by_cases hlt : i < s.nextId
+          · rcases h.accounted i h0 hlt with ⟨k', hs, e⟩ | hcl
+            · rw [hc] at hs; cases hs; exact Or.inr (by simp [e])
+            · exact Or.inr (by simp [hcl])
+          · exact Or.inl ⟨{ id := s.nextId }, rfl, by simp at hi ⊢; omega⟩
     · exact Acc.pure h
   | connectFail =>
     simp only [react]
@@ -662,20 +787,11 @@ theorem react_acc {strict : Bool} {s : State} {g : G} (e : Event) (h : Rel true 
     · rename_i c hp
       split
       · exact Acc.pure h
-      · refine Acc.seq (P := fun s' g' => Rel true s' g') ?_ ?_
-        · cases hc : s.conn with
-          | none => exact Acc.pure h
-          | some k =>
-            simp only []
-            split
-            · rename_i hk
-              exact mainIter_acc _ h (fun _ => (hinv.main c k hp hc hk).1)
-            · rename_i hk
-              exact stale c k hp hc hk
-        · intro g1 r1
-          split
-          · exact onNotify_acc _ _ r1
-          · exact Acc.pure r1
+      · refine Acc.seq (drainMain_acc _ s g h hinv hns) ?_
+        intro g1 r1
+        split
+        · exact onNotify_acc _ _ r1
+        · exact Acc.pure r1
     · exact Acc.pure h
   | tick =>
     simp only [react]
@@ -737,6 +853,6 @@ theorem run_acc {strict : Bool} : ∀ (evs : List Event) (s : State) (g : G), Re
 def g0 : G := { fsm := .idle, up := false, dead := [] }
 
 theorem rel_init (cfg : Cfg) (rib : Bool) : Rel true (init cfg rib) g0 :=
-  ⟨rfl, rfl, by simp [g0], by simp [init], by simp [init]⟩
+  ⟨rfl, rfl, by simp [g0], by simp [init], by simp [init], by intro i h0 hi; simp [init] at hi; omega⟩
 
 end Exa.Session
